@@ -136,8 +136,21 @@ def pMulti : P String := do
   | none => pure "sheet-error"
   | some ms =>
     let rds := (reads.zip hits).map (fun (r, h) => (r.1, r.2, h))
-    -- the model has no state: the result of a read in a history is its result alone
-    let each := rds.map (fun rd => extractMultiBarcode ms rd.1 rd.2.1 rd.2.2)
+    -- the history goes through the state-passing model of the library object (Model/DemuxState.lean): one object, the
+    -- reads in order; the matcher is the parameter `scan` = the hit lists of the real calls, found by (read, marker)
+    let lms : List NgsFilter.LMarker := ms.map (fun m =>
+      { fp := m.fprimer, rp := m.rprimer, fsp := m.fspacer, rsp := m.rspacer, fdl := m.fdelim, rdl := m.rdelim,
+        fin := m.findels, rin := m.rindels, fmode := m.fmode, rmode := m.rmode, samples := m.samples })
+    let st := DemuxState.mkWorker 0 false (DemuxState.fresh lms)
+    let noHits : Hits := ⟨[], [], [], []⟩
+    let scan : DemuxState.Scan := fun fp rp _ seq =>
+      match rds.find? (fun rd => rd.2.1 == seq) with
+      | none => noHits
+      | some rd =>
+        match (ms.zip rd.2.2).find? (fun p => p.1.fprimer == fp && p.1.rprimer == rp) with
+        | some p => p.2
+        | none => noHits
+    let each := (DemuxState.runHistory scan st (rds.map (fun rd => (rd.1, rd.2.1)))).1
     let h := "H " ++ " @@ ".intercalate (each.map showResult)
     match obimultiplex ms (keep == 1) (unid == 1) rds with
     | .error _ => pure (h ++ " || abort")
